@@ -313,8 +313,12 @@ func finish(prop, tier string, seed uint64, nw int, outs []*workerOut, nRace int
 		var h replayHead
 		json.Unmarshal(viol, &h)
 		sum := sha256.Sum256(viol)
-		os.MkdirAll(filepath.Join(verifDir, "replays"), 0o755)
-		replayPath = filepath.Join(verifDir, "replays", fmt.Sprintf("%s-%d-%s.json", prop, h.RunSeed, hex.EncodeToString(sum[:4])))
+		rdir := filepath.Join(verifDir, "replays")
+		if v := os.Getenv("VERIF_REPLAY_DIR"); v != "" {
+			rdir = v
+		}
+		os.MkdirAll(rdir, 0o755)
+		replayPath = filepath.Join(rdir, fmt.Sprintf("%s-%d-%s.json", prop, h.RunSeed, hex.EncodeToString(sum[:4])))
 		var pretty bytes.Buffer
 		json.Indent(&pretty, viol, "", " ")
 		os.WriteFile(replayPath, pretty.Bytes(), 0o644)
